@@ -206,4 +206,40 @@ CHECKS = {
         "rule": "one case per (call, timeout value or invalid argument, caller kind); every case is distinct",
         "assumptions": [REAL, CLOCK],
     },
+    "C15": {
+        "parts": [seqx("c15.mix")],
+        "design_ref": "DESIGN.md §5 C15",
+        "technique": "bounded-exhaustive enumeration of all multisets of 1..N task kinds (hooked sleeps of four lengths, hooked read with a late peer write, computing task) on one synchronous loop with real epoll under a virtual clock",
+        "level_text": "for every mix: each waiting task's virtual elapsed time is within [own wait, own wait + slack], the makespan is the maximum not the sum, the computing sibling finishes while the others wait, no real time is spent waiting",
+        "level_note": "N <= 3 (quick) / 4 (thorough); the dylib interposition layer is outside the check",
+        "rule": "one case per multiset of task kinds; every case is distinct",
+        "assumptions": [REAL, CLOCK],
+    },
+    "C19": {
+        "parts": [seqx("c19.opts")],
+        "design_ref": "DESIGN.md §5 C19",
+        "technique": "exhaustive enumeration (no dedup) of all set/io/close/reopen histories over two descriptor slots up to the depth bound, descriptor-number reuse forced with dup2, against a reference model cross-checked with native getsockopt",
+        "level_text": "every history up to the depth is executed on the real hooks; the limit a hooked call applies is compared with the socket's current option value after every io step; the process must survive",
+        "level_note": "depth 4 (quick) / 5 (thorough, adds a negative tv_sec); histories of one forked child share the process, descriptor numbers rotate and every history closes its sockets through the hook",
+        "rule": "all operation sequences; every history is distinct",
+        "assumptions": [REAL],
+    },
+    "C20": {
+        "parts": [seqx("ep.wake")],
+        "design_ref": "DESIGN.md §5 C20",
+        "technique": "bounded-exhaustive enumeration of waiters x readiness instants x id shapes (incl. two ids that collide under a 32-bit fold, found by brute force) x descriptor reuse on a synchronous loop with the real epoll instance; observer on the loop's resume-by-token",
+        "level_text": "for every case: the waiter whose descriptor became ready returns at the readiness instant (not at its periodic timeout) after an event carrying its own id was dispatched, and no other waiter is resumed by that event",
+        "level_note": "1-3 waiters, one loop; 64-bit id space is covered by shape (colliding / non-colliding), not exhaustively",
+        "rule": "one case per (readiness instant per waiter, id shape, reuse); every case is distinct",
+        "assumptions": [REAL, CLOCK],
+    },
+    "C21": {
+        "parts": [seqx("ep.interest")],
+        "design_ref": "DESIGN.md §5 C21",
+        "technique": "exhaustive enumeration (no dedup) of all interest-operation histories over two descriptors up to the depth bound on a synchronous loop with the real epoll instance; the OS-side interest is read from /proc/self/fdinfo/<epoll fd> after every operation",
+        "level_text": "every history of wait_read/wait_write/del_read/del_write/del_event/shutdown/close+reopen/fire up to the depth; after each operation epoll's registered interest per descriptor equals the union of the outstanding interests of the reference model",
+        "level_note": "reading taken: an interest stays outstanding until removed through the runtime (event delivery does not remove it); one loop",
+        "rule": "all operation sequences over 20 operations; every history is distinct",
+        "assumptions": [REAL],
+    },
 }
